@@ -219,6 +219,23 @@ Proof.
   destruct v; unfold typed; simpl; try discriminate. intros H.
   apply andb_prop in H as [H1 H3]. apply andb_prop in H1 as [H1 H2]. apply ty_eqb_eq in H1. apply ty_eqb_eq in H2. subst. eauto.
 Qed.
+Lemma typed_set_inv v a : typed v (TSet a) -> exists l, v = PSet a l /\ Forall (fun x => typed x a) l.
+Proof.
+  destruct v; unfold typed; try (simpl; discriminate). simpl. intros H.
+  apply andb_prop in H as [H _]. apply andb_prop in H as [H1 H2]. apply ty_eqb_eq in H1. subst.
+  eexists; split; [reflexivity|]. apply Forall_forall. intros x Hx. rewrite forallb_forall in H2. auto.
+Qed.
+Definition entry_typed (kt vt : ty) (x : pval) : Prop := exists k v, x = PPair k v /\ typed k kt /\ typed v vt.
+Lemma typed_map_inv v a b : typed v (TMap a b) -> exists l, v = PMap a b l /\ Forall (entry_typed a b) l.
+Proof.
+  destruct v; unfold typed; try (simpl; discriminate). simpl. intros H.
+  apply andb_prop in H as [H _]. apply andb_prop in H as [H H3]. apply andb_prop in H as [H1 H2].
+  apply ty_eqb_eq in H1. apply ty_eqb_eq in H2. subst.
+  eexists; split; [reflexivity|]. apply Forall_forall. intros x Hx. rewrite forallb_forall in H3. specialize (H3 x Hx).
+  destruct x; try discriminate. apply andb_prop in H3 as [Hk Hv]. unfold entry_typed. eauto.
+Qed.
+Lemma entry_typed_pair a b x : entry_typed a b x -> typed x (TPair a b).
+Proof. intros (k & v & -> & Hk & Hv). unfold typed in *. simpl. rewrite Hk, Hv. reflexivity. Qed.
 Lemma typed_list_inv' v a : typed v (TList a) -> exists l, v = PList a l /\ Forall (fun x => typed x a) l.
 Proof.
   destruct v; unfold typed; try (simpl; discriminate). intros H. apply typed_list_inv in H as [-> H]. eauto.
